@@ -1243,7 +1243,7 @@ RING_PATTERNS = ['C1CC1', 'C1CCC1', 'C1CCCC1', 'C1CCCCC1', 'C1CCCCCC1', 'C1CC2CC
                  '[C;D2]1[C;D3][A][A][C;D3]1', 'C-;@1CCC-;@1', 'C1CC-;@1', 'C1CCC-,=;@1', 'C=,#1CCC1', 'C1CC(C)C1', 'CC1CCC1C', 'C1C(C)C1C',
                  'C(C1)CC1', 'C1(CC1)C', '[C;h1]1[C;h1][C;h1]1', '[C;h1,h2]1[C][C][C;h1]1', '[A;x0]1[A][A;D3,D4]1', '[C;z1]1[C;z1][C;z2]=[C]1',
                  'C1CC=C1', 'C=1CCC=1', 'C%10CCC%10', 'C12CC1C2', 'C1CC11CC1', 'C1C2C1C2', 'C1CC2C1C2', '[C,N]1[C][C][C,O]1', 'C1CC1C1CC1',
-                 'C1C[C;D3]2[C;D3]C12', '[A]1[A][A]2[A][A]12', 'C!=1CC!=1', 'C1CC!-1', 'C1CCC2C(C1)C2', '[C;r3]1[C;r3][C;r3]1', '[C;r3]1[C][C][C]1']
+                 'C1C[C;D3]2[C;D3]C12', '[A]1[A][A]2[A][A]12', 'C!=1CC!=1', 'C1CC!-1', 'C-;!@1CCC1', 'C1CC-;!@1', 'C1CCCC-,=;!@1', 'C-;!@1CC-;!@1', 'C1-;!@CC1', 'C1-;@CCC1', 'C1CCC2C(C1)C2', '[C;r3]1[C;r3][C;r3]1', '[C;r3]1[C][C][C]1']
 
 
 def prismane_edges(k):
@@ -1542,9 +1542,17 @@ def check_embed(text, mol, default=False):
     extra, missing = set(got) - exp, exp - set(got)
     if extra:
         x = sorted(extra)[0]
-        _, mb, _ = _mol_view(mol)
-        why = next((f'pattern bond between written atoms {i + 1} and {j + 1} lies on molecule atoms {x[i]}, {x[j]} which are not bonded'
-                    for (i, j) in bonds if (x[i], x[j]) not in mb), 'it is not an embedding by the documented meaning')
+        attrs, mb, ring = _mol_view(mol)
+        why = (next((f'written atom {i + 1} does not have its documented meaning on molecule atom {x[i]}'
+                     for i, d in enumerate(atoms) if not oracle_match(d, attrs[x[i]])), None)
+               or next((f'pattern bond between written atoms {i + 1} and {j + 1} lies on molecule atoms {x[i]}, {x[j]} which are not bonded'
+                        for (i, j) in bonds if (x[i], x[j]) not in mb), None)
+               or next((f'pattern bond between written atoms {i + 1} and {j + 1} (orders {sorted(sp[0])}, ring mark {sp[1]}) lies on the molecule '
+                        f'bond {x[i]}-{x[j]} of order {mb[(x[i], x[j])]}, {"on" if ring[(x[i], x[j])] else "not on"} a cycle'
+                        for (i, j), sp in bonds.items() if mb[(x[i], x[j])] not in sp[0] or (sp[1] is not None and ring[(x[i], x[j])] != sp[1])), None)
+               or next((f'written atoms {i + 1} and {j + 1} are not joined in the pattern but their images {x[i]}, {x[j]} are bonded'
+                        for i in range(len(x)) for j in range(i + 1, len(x)) if (i, j) not in bonds and (x[i], x[j]) in mb), None)
+               or 'not an embedding by the documented meaning')
         return f'{body} ({path} path): returns {x} ({len(extra)} such): {why}'
     if missing:
         return f'{body} ({path} path): {len(missing)} documented embeddings are not returned, e.g. {sorted(missing)[0]}'
@@ -1621,14 +1629,16 @@ def cut_pattern_text(rng, mol, size, drop=False):
                 prims.append('!R')
         return '[' + ';'.join([head] + prims) + ']'
 
-    def bond_text(n, m):
+    def bond_text(n, m, closure=False):
         o = mb[(n, m)]
         true = {1: ['', '', '-', '-,=', '-,:', '!=', '!#', '!:'], 2: ['=', '=', '-,=', '=,#', '!-', '!#'], 3: ['#', '=,#', '!-', '!='],
                 4: [':', '-,:', '!-', '!='], 8: ['~']}[o]
         t = rng.choice(true) if rng.random() < 0.9 else rng.choice(['-', '=', '-,=', '!-', ':'])
-        if t and o != 8 and rng.random() < 0.3:
+        if closure and not t and rng.random() < 0.5:
+            t = '-'
+        if t and o != 8 and rng.random() < (0.5 if closure else 0.3):
             r = ring[(n, m)]
-            if rng.random() < 0.12:
+            if rng.random() < (0.3 if closure else 0.12):       # a closure bond always lies on a cycle: `;!@` there can never match
                 r = not r
             t += ';@' if r else ';!@'
         return t
@@ -1650,7 +1660,7 @@ def cut_pattern_text(rng, mol, size, drop=False):
                 done.add(e)
                 counter[0] += 1
                 dg = str(counter[0]) if counter[0] < 10 else f'%{counter[0]}'
-                bt = bond_text(n, m)
+                bt = bond_text(n, m, closure=True)
                 side = rng.choice(['open', 'close', 'both']) if bt else 'open'
                 closing[m].append((dg, bt if side in ('open', 'both') else ''))
                 closing[n].append((dg, bt if side in ('close', 'both') else ''))
